@@ -853,6 +853,24 @@ def run_bcase(case):
                     except Exception as e:  # noqa
                         rs.append(ON("raise", [oexn(e)]))
                     ob = ON("find", rs)
+            elif k == 'log':
+                if op[1] >= len(exprs):
+                    ob = ON("skip")
+                else:
+                    from treepath import log_to
+                    lines = []
+                    rs = []
+                    try:
+                        n = 0
+                        for m in find_matches(exprs[op[1]], doc, trace=log_to(lines.append)):
+                            rs.append(ON("result", [mref(cx, m)]))
+                            n += 1
+                            if n >= 200:
+                                rs.append(ON("cap"))
+                                break
+                    except Exception as e:  # noqa
+                        rs.append(ON("raise", [oexn(e)]))
+                    ob = ON("log", [ON("lines", [OS(x) for x in lines]), ON("results", rs)])
             else:
                 raise ValueError(k)
         except Exception as e:  # noqa
